@@ -232,7 +232,9 @@ def run(pid, tier, spec):
         first_bad = None
         flagsets = set()
 
-        def handle_bad(hists, res, tracefile):
+        def handle_bad(hists, res, tracefile, src=None):
+            """src: the corpus file the histories were replayed from (kept as the replay when it contains wait lines,
+            which a history shrunk to its operations would lose)"""
             nonlocal first_bad, viol_reported
             for hid, b in sorted(res["bad"].items()):
                 if b["pviol"]:
@@ -241,6 +243,11 @@ def run(pid, tier, spec):
                     if kf:
                         findings_printed.add(kf["line"])
                         continue
+                    if not viol_reported and src and any(l.startswith("W ") for l in open(src)):
+                        rp = C.write_replay(pid, "replay-%s-%s" % (pid, os.path.basename(src)),
+                                            "# P_%s violated on the implementation's own trace: code=%d at=%d info=%s (timed history, kept whole)\n" % (pid, pv["code"], pv["at"], pv["info"]) + open(src).read())
+                        C.violation(pid, rp)
+                        viol_reported = True
                     if not viol_reported:
                         h = hists[hid]
                         ops = shrink(l1, pid, h, want_same(b))
@@ -265,7 +272,7 @@ def run(pid, tier, spec):
                         if r["decodefail"] or r["summary"] is None:
                             print("INTERNAL: oracle failed on corpus %s: %s" % (fn, r["raw"][-2000:])); return 2
                         total_hist += r["ok"] + len(r["bad"])
-                        handle_bad(split_trace(tp), r, tp)
+                        handle_bad(split_trace(tp), r, tp, src=os.path.join(cdir, fn))
             # 2. generated histories
             n = spec["n_thorough"] if tier == "thorough" else spec["n_quick"]
             shard = 400
